@@ -230,6 +230,8 @@ class IdScn:
         if len(set(made)) != len(made):
             return V("duplicate-id-handed-out", f"makegateway returned gateways with equal ids: {made}")
         for e in obs:
+            if e[0] == "failed" and "id=" not in e[2] and P.get("auto_must_succeed"):
+                return V("auto-id-collision", f"makegateway({e[2]!r}) with an automatically allocated id failed: {e[3]}: {e[4]} (automatic ids must be unique under concurrent creation)")
             if e[0] == "failed" and e[3] in ("Teardown", "ProcExit", "InternalError"):
                 return V("failed-makegateway-exception", f"makegateway({e[2]!r}) failed with {e[3]}: {e[4]}")
         lp = [e for e in obs if e[0] == "live-procs"][0]
@@ -301,10 +303,11 @@ def run(tier: str, only=None) -> int:
     stmt = harness.stmt_mask(stmt_pred)
     cap = 400000 if tier == "quick" else 6000000
     scen = [
-        ("auto-auto", {"makers": [["popen"], ["popen"]]}),
+        ("auto-auto", {"makers": [["popen"], ["popen"]], "auto_must_succeed": True}),
+        ("auto-auto-explicit", {"pre": ["popen//id=x"], "makers": [["popen", "popen"], ["popen"]], "auto_must_succeed": True}),
         ("explicit-live", {"pre": ["popen//id=p"], "makers": [["popen//id=p"], ["popen"]]}),
         ("explicit-next-auto", {"makers": [["popen//id=gw0"], ["popen"]]}),
-        ("exit-race", {"pre": ["popen//id=gw0x", "popen"], "makers": [["popen"], ["popen//id=q"]], "exit": True}),
+        ("exit-race", {"pre": ["popen//id=gw0x", "popen"], "makers": [["popen"], ["popen//id=q"]], "exit": True, "auto_must_succeed": True}),
         ("same-explicit-twice", {"makers": [["popen//id=same"], ["popen//id=same"]]}),
     ]
     for name, P in scen:
